@@ -85,8 +85,11 @@ func (storage *MsgStorage) persist() {
 	storage.persistLock.Unlock()
 
 	rmDel := make([]string, 0)
+	// messages added and deleted again before this flush never reach the db, but their publisher still waits
+	settled := make([]*amqp.Message, 0)
 	for delKey := range del {
-		if _, ok := add[delKey]; ok {
+		if message, ok := add[delKey]; ok {
+			settled = append(settled, message)
 			delete(add, delKey)
 			rmDel = append(rmDel, delKey)
 		}
@@ -140,8 +143,17 @@ func (storage *MsgStorage) persist() {
 	verifhook.At("persist.afterBatch")
 
 	for _, message := range add {
-		if message.ConfirmMeta != nil && storage.confirmMode && message.ConfirmMeta.DeliveryTag > 0 {
-			message.ConfirmMeta.ActualConfirms++
+		storage.confirm(message)
+	}
+	for _, message := range settled {
+		storage.confirm(message)
+	}
+}
+
+// confirm counts the store's confirmation of a message and relays the message when that completed it
+func (storage *MsgStorage) confirm(message *amqp.Message) {
+	if message.ConfirmMeta != nil && storage.confirmMode && message.ConfirmMeta.DeliveryTag > 0 {
+		if message.ConfirmMeta.Confirm() {
 			verifhook.Sent("store.relay")
 			storage.confirmSyncCh <- message
 		}
